@@ -53,6 +53,20 @@ pub fn producers<A: Sx>(content: &[A], other: &[A], offsets: &[usize], edits: bo
         let c: Seq<A> = pl.view().into();
         v.push(p("From<&SeqSlice>(same codec)", c, content));
     }
+    // the (unstable) bit-level constructors: From<&BitSlice> at an offset inside model words, From<BitVec>
+    {
+        use bitvec::prelude::*;
+        let bits = A::BITS as usize;
+        for &s in offsets.iter().take(3) {
+            let fl = flanked(content, s, 0);
+            let words: Vec<usize> = crate::model::pack_words(&codes(&fl), bits).iter().map(|w| *w as usize).collect();
+            let bs: &BitSlice<usize, Lsb0> = BitSlice::from_slice(&words);
+            let window = &bs[s * bits..(s + n) * bits];
+            v.push(p(format!("From<&Bs>(bit window @{s})"), Seq::<A>::from(window), content));
+            let bv: BitVec<usize, Lsb0> = window.to_bitvec();
+            v.push(p(format!("From<Bv>(to_bitvec of window @{s})"), Seq::<A>::from(bv), content));
+        }
+    }
     // reverse / complement / reverse-complement results
     let rev: Vec<A> = content.iter().rev().copied().collect();
     v.push(p("to_rev(&Seq)", seq_to_rev(&fresh), &rev));
